@@ -61,6 +61,10 @@ func (r Rounder) ShouldAddOne(result *BigInt, neg bool, half int) bool {
 // Round sets d to rounded x.
 func (r Rounder) Round(c *Context, d, x *Decimal, disableIfPrecisionZero bool) Condition {
 	d.Set(x)
+	if x.Form != Finite {
+		// Infinity and NaN have no digits to round.
+		return 0
+	}
 	nd := x.NumDigits()
 	xs := x.Sign()
 	var res Condition
